@@ -258,6 +258,10 @@ func (k *c15Case) sp() *saml2.SAMLServiceProvider {
 		IsPassive:                   k.Passive,
 		SignAuthnRequests:           k.Sign,
 		Clock:                       dsig.NewFakeClockAt(k.Now),
+		// configuration that is about INBOUND messages only: nothing of it belongs into an outgoing message
+		AudienceURI:            "https://sp.example.com/audience-of-inbound-assertions",
+		ServiceProviderSLOURL:  "https://sp.example.com/slo-endpoint-of-the-sp",
+		AllowMissingAttributes: true, MaximumDecompressedBodySize: 4096,
 	}
 	if k.HasRAC {
 		rac := &saml2.RequestedAuthnContext{Comparison: k.Comparison.V}
@@ -384,12 +388,13 @@ type bldXsdEntry struct {
 }
 
 // Child order lists, written from saml-schema-protocol-2.0.xsd:
-//   RequestAbstractType  = saml:Issuer? ds:Signature? samlp:Extensions?
-//   AuthnRequestType     = RequestAbstractType + saml:Subject? samlp:NameIDPolicy? saml:Conditions? samlp:RequestedAuthnContext? samlp:Scoping?
-//   LogoutRequestType    = RequestAbstractType + (saml:BaseID | saml:NameID | saml:EncryptedID) samlp:SessionIndex*
-//   StatusResponseType   = saml:Issuer? ds:Signature? samlp:Extensions? samlp:Status
-//   RequestedAuthnContextType = saml:AuthnContextClassRef+ | saml:AuthnContextDeclRef+
-//   StatusType           = samlp:StatusCode samlp:StatusMessage? samlp:StatusDetail?
+//
+//	RequestAbstractType  = saml:Issuer? ds:Signature? samlp:Extensions?
+//	AuthnRequestType     = RequestAbstractType + saml:Subject? samlp:NameIDPolicy? saml:Conditions? samlp:RequestedAuthnContext? samlp:Scoping?
+//	LogoutRequestType    = RequestAbstractType + (saml:BaseID | saml:NameID | saml:EncryptedID) samlp:SessionIndex*
+//	StatusResponseType   = saml:Issuer? ds:Signature? samlp:Extensions? samlp:Status
+//	RequestedAuthnContextType = saml:AuthnContextClassRef+ | saml:AuthnContextDeclRef+
+//	StatusType           = samlp:StatusCode samlp:StatusMessage? samlp:StatusDetail?
 var bldXsdOrder = map[string][]bldXsdEntry{
 	"AuthnRequest": {{bldNsAssertion, "Issuer", 0, false}, {bldNsDsig, "Signature", 0, false}, {bldNsProtocol, "Extensions", 0, false},
 		{bldNsAssertion, "Subject", 0, false}, {bldNsProtocol, "NameIDPolicy", 0, false}, {bldNsAssertion, "Conditions", 0, false},
